@@ -521,7 +521,9 @@ impl<'a, R: Clone> AsyncGlobalCache<'a, R> {
         for (idx, evict_key) in order.iter().enumerate() {
             if let Some(entry) = self.cache.get(evict_key) {
                 let frequency = entry.2 as f64;
-                let position_weight = (order.len() - idx) as f64;
+                // The queue runs from least recent (front) to most recent (back), so a
+                // later position means a more recently used entry and a higher weight.
+                let position_weight = (idx + 1) as f64;
                 let score = frequency * position_weight;
 
                 if score < best_score {
@@ -563,7 +565,9 @@ impl<'a, R: Clone> AsyncGlobalCache<'a, R> {
         for (idx, evict_key) in order.iter().enumerate() {
             if let Some(entry) = self.cache.get(evict_key) {
                 let frequency = entry.2 as f64;
-                let position_weight = (order.len() - idx) as f64;
+                // The queue runs from least recent (front) to most recent (back), so a
+                // later position means a more recently used entry and a higher weight.
+                let position_weight = (idx + 1) as f64;
 
                 // Calculate age factor based on TTL
                 let age_factor = if let Some(ttl_secs) = self.ttl {
